@@ -726,3 +726,29 @@ Proof.
     unfold same_counts in Hsh.
     destruct e as [[pid| | |]| | | | | | | | |]; cbn [count_started]; try lia; intuition lia.
 Qed.
+
+(* OnChildSpawn rejecting a replacement (or an initial child): the teardown that follows reaches every
+   child that is still unreaped, the one just started included: it is an entry of childProcs and was sent SIGTERM *)
+Lemma flags_unreaped_unprocessed pc k : flags_ok pc k = true -> os k <> Reaped -> processed k = false.
+Proof. intros H Ho. destruct pc; kid_cases k; congruence. Qed.
+
+Lemma hook_error_teardown c s o s' : reach c s ->
+  (exists old new, ph s = PRecHook old new) \/ (exists i, ph s = PInitHook i) -> o <> HOk ->
+  step c s (EHook o) = Some s' ->
+  (exists e, ph s' = PGrace e /\ e <> ErrOverRecovery) /\
+  length (kids s') = length (kids s) /\
+  Forall (fun k => os k <> Reaped -> sig k = true /\ In (cpid k, cid k) (procs s')) (kids s').
+Proof.
+  intros Hr Hp Ho Hst.
+  assert (reach c s') as Hr' by (eapply reach_step; eauto; exact I).
+  assert ((exists e, ph s' = PGrace e /\ e <> ErrOverRecovery) /\ length (kids s') = length (kids s)) as [He Hl].
+  { cbn in Hst. destruct Hp as [(old & new & Hp)|(i & Hp)]; rewrite Hp in Hst; injection Hst as <-;
+      (destruct o; [congruence| |]; cbn; rewrite map_length; split; auto; eexists; split; eauto; discriminate). }
+  split; [exact He|]. split; [exact Hl|].
+  destruct He as (e & He & _).
+  assert (tearing (ph s') = true) as Ht by (rewrite He; reflexivity).
+  pose proof (teardown_signalled c s' Hr' Ht) as Hsig.
+  pose proof (reach_inv c s' Hr') as [[_ _ H3 _] _ _].
+  rewrite Forall_forall in *. intros k Hin Hos. split; [now apply (Hsig k Hin)|].
+  destruct (H3 k Hin) as [Hf Hm]. apply Hm. eapply flags_unreaped_unprocessed; eauto.
+Qed.
